@@ -14,7 +14,7 @@ from typing import Any, Dict, List, Optional
 from harness.common import FakeSocket, FakeTransport, VirtualTimeLoop, exc_token, tok_bytes
 from vk.core import Case, Ctx
 
-GEN_MODULES: List[str] = ["C01Ssdp", "C02Recv", "C02Sites"]
+GEN_MODULES: List[str] = ["C01Ssdp", "C02Recv", "C02Sites", "C03Tracker"]
 MANIFEST = {
     "design_ref": "§5 C02",
     "text": ("Lean theorems over a model of the whole SSDP receive path in which every raising primitive is explicit "
@@ -185,7 +185,16 @@ class Env:
         self.adv = SsdpAdvertisementListener(loop=self.loop, **kw(on_alive=1, on_byebye=1, on_update=1))
         self.search = SsdpSearchListener(loop=self.loop, **({"async_callback": acb} if self.async_mode else {"callback": cb}))
         self.search._target_host = target_host
-        self.listener = SsdpListener(loop=self.loop, **({"async_callback": acb} if self.async_mode else {"callback": cb}))
+        self.cbs: List[str] = []
+
+        def lcb(dev, dst, source):
+            env.count += 1
+            env.cbs.append(f"{ts(dev.udn)}|{ts(dst)}|{getattr(source, 'value', source)}")
+
+        async def alcb(dev, dst, source):
+            lcb(dev, dst, source)
+
+        self.listener = SsdpListener(loop=self.loop, **({"async_callback": alcb} if self.async_mode else {"callback": lcb}))
         # what SsdpListener.async_start builds, without the sockets
         self.l_adv = SsdpAdvertisementListener(on_alive=self.listener._on_alive, on_update=self.listener._on_update,
                                                on_byebye=self.listener._on_byebye, loop=self.loop)
@@ -243,6 +252,7 @@ def run_recipe(ctx: Ctx, recipe: Dict[str, Any], cid: str) -> Case:
             tracker = env.listener._device_tracker
             before = sorted(tracker.devices)
             c0, s0, t0 = env.count, len(env.rsock.sent), len(env.stub.timers)
+            del env.cbs[:]
             tsent0 = sum(len(p.transport.sent) for p in env.protos.values())
             raised = "-"
             try:
@@ -261,7 +271,7 @@ def run_recipe(ctx: Ctx, recipe: Dict[str, Any], cid: str) -> Case:
             lines.append(f"dg {ep} {tb(data)} {tok_addr(src)} {tok_addr(local) if local else 'N'} {env.clock}{outside}")
             lines.append(f"eff raised={raised} cb={cbn} sends={sends} timers={timers} devs={devs} "
                          f"next={'N' if nx is None else us(nx)} before={lst(ts(k) for k in before)} "
-                         f"after={lst(ts(k) for k in sorted(tracker.devices))}")
+                         f"after={lst(ts(k) for k in sorted(tracker.devices))} cbs={lst(env.cbs)}")
             tags.add("ep:" + ep)
             if tag:
                 tags.add("fam:" + tag)
@@ -529,6 +539,11 @@ def seq_prefix(rng, n: int) -> List[list]:
 
 
 CORPUS = [
+    # composition with the C03 tracker model: `urlparse` raises (suppressed) on an unbalanced bracket, so the new location has
+    # no ip version and is NOT a change — the C03 model read `[fe80::1` as IPv6 (corrected by `C02.ipv`)
+    {"ops": [["lsearch", response("uuid:dev-1", "upnp:rootdevice", "http://[fe80::1]:8000/desc.xml", "no-cache").hex(), ["192.168.1.7", 1900], None, 1000],
+             ["ladv", notify("ssdp:alive", "uuid:dev-1", "upnp:rootdevice", "http://[fe80::1/", None).hex(), ["192.168.1.7", 1900], None, 4000000],
+             ["ladv", notify("ssdp:alive", "uuid:dev-1", "upnp:rootdevice", "http://fe80::1]/", None).hex(), ["192.168.1.7", 1900], None, 1000]]},
     # §7 probes, each through the endpoint that raised
     {"ops": [["ladv", notify("ssdp:alive", "uuid:dev-1", "upnp:rootdevice", "http://192.168.1.7/d", None, extra=[["X", "v" * 8191]]).hex(), ["192.168.1.7", 1900], None, 1000]]},  # F02a
     {"ops": [["adv", (b"NOTIFY * HTTP/1.1 \xff\r\nNT:x\r\nNTS:ssdp:alive\r\n\r\n").hex(), ["192.168.1.7", 1900], None, 1000]]},  # F02b
